@@ -64,72 +64,73 @@ structure Irr where
   dpos : Bool
 deriving DecidableEq, Repr
 
-/-- PoW → DPoS hand-over: `if s.DPOSWorkHeight != 0 && height == s.DPOSWorkHeight+1` -/
-def handOver (st : Irr) (height : Nat) : Irr :=
-  if st.dposWork ≠ 0 ∧ height = st.dposWork + 1 then { st with dposStart := height } else st
-
-/-- `if height-s.DPOSStartHeight >= IrreversibleHeight { s.DPOSStartHeight++; s.LastIrreversibleHeight = s.DPOSStartHeight }` -/
-def advance (st : Irr) (height : Nat) : Irr :=
-  if height - st.dposStart ≥ 6 then { st with dposStart := st.dposStart + 1, lih := st.dposStart + 1 } else st
-
-/-- `State.tryUpdateLastIrreversibleHeight(height)` (the execute closures; `height ≥ 6` so that the
-    uint32 subtraction of the first branch does not wrap) -/
+/-- `State.tryUpdateLastIrreversibleHeight(height)`. The assignments sit in `History.Append` closures, which
+    run only when the height is committed: **both conditions of the DPoS branch are evaluated on the
+    state before any of the closures ran**, then the closures run in order. So at the PoW → DPoS
+    hand-over (`height == DPOSWorkHeight+1`) with an old `DPOSStartHeight` at least 6 below, the result is
+    `DPOSStartHeight = LastIrreversibleHeight = height + 1` — one above the block being processed.
+    (`height ≥ 6` so that the uint32 subtraction of the first branch does not wrap.) -/
 def tryUpdate (revertStart : Nat) (st : Irr) (height : Nat) : Irr :=
   if height < revertStart then st
   else if st.lih = 0 then { st with lih := height - 6, dposStart := height - 6 }
-  else if st.dpos then advance (handOver st height) height
+  else if st.dpos then
+    let handOver := st.dposWork ≠ 0 ∧ height = st.dposWork + 1
+    let advance := height - st.dposStart ≥ 6
+    let st1 := if handOver then { st with dposStart := height } else st
+    if advance then { st1 with dposStart := st1.dposStart + 1, lih := st1.dposStart + 1 } else st1
   else st
 
-theorem handOver_spec (st : Irr) (height : Nat) (hinv : st.lih ≤ st.dposStart) (hh : st.lih ≤ height) :
-    (handOver st height).lih = st.lih ∧ st.lih ≤ (handOver st height).dposStart := by
-  unfold handOver
-  split
-  · exact ⟨rfl, hh⟩
-  · exact ⟨rfl, hinv⟩
-
-theorem advance_spec (st : Irr) (height : Nat) (hinv : st.lih ≤ st.dposStart) (hh : st.lih ≤ height) :
-    st.lih ≤ (advance st height).lih ∧ (advance st height).lih ≤ (advance st height).dposStart ∧
-      (advance st height).lih ≤ height := by
-  unfold advance
-  split
-  · simp only; omega
-  · exact ⟨Nat.le_refl _, hinv, hh⟩
-
-/-- **C30 (monotone).** On the forward path (`height` at least the recorded value) the last
-    irreversible height never decreases, stays at or below the block height, and the invariant
-    `lih ≤ DPOSStartHeight` is kept. -/
+/-- **C30 (monotone).** On the forward path (`height` at least the recorded value) the last irreversible
+    height never decreases and the invariant `lih ≤ DPOSStartHeight` is kept. It stays at or below
+    `height + 1` — not `height`: see `C30_lih_above_height`. -/
 theorem C30_monotone (rs : Nat) (st : Irr) (height : Nat)
     (hinv : st.lih ≤ st.dposStart) (hh : st.lih ≤ height) :
     st.lih ≤ (tryUpdate rs st height).lih ∧ (tryUpdate rs st height).lih ≤ (tryUpdate rs st height).dposStart ∧
-      (tryUpdate rs st height).lih ≤ height := by
+      (tryUpdate rs st height).lih ≤ height + 1 := by
   unfold tryUpdate
   split
-  · exact ⟨Nat.le_refl _, hinv, hh⟩
+  · exact ⟨Nat.le_refl _, hinv, by omega⟩
   · split
-    · next h2 => simp only; omega
+    · simp only; omega
     · split
-      · have h1 := handOver_spec st height hinv hh
-        have h2 := advance_spec (handOver st height) height (by rw [h1.1]; exact h1.2) (by rw [h1.1]; exact hh)
-        rw [h1.1] at h2
-        exact h2
-      · exact ⟨Nat.le_refl _, hinv, hh⟩
+      · simp only
+        split
+        · split
+          · simp only; omega
+          · simp only; omega
+        · split
+          · simp only; exact ⟨Nat.le_refl _, hh, by omega⟩
+          · exact ⟨Nat.le_refl _, hinv, by omega⟩
+      · exact ⟨Nat.le_refl _, hinv, by omega⟩
 
-/-- over any non-decreasing run of block heights the last irreversible height is non-decreasing -/
+/-- the recorded last irreversible height can exceed the height of the block that set it (hand-over
+    block with a stale `DPOSStartHeight`): the full statement "lih ≤ best height" is false of the code -/
+theorem C30_lih_above_height :
+    ¬ (∀ (rs : Nat) (st : Irr) (height : Nat), st.lih ≤ st.dposStart → st.lih ≤ height →
+        (tryUpdate rs st height).lih ≤ height) := by
+  intro h
+  have := h 10 { lih := 14, dposStart := 14, dposWork := 30, dpos := true } 31 (by decide) (by decide)
+  revert this
+  decide
+
+/-- over any strictly increasing run of block heights the last irreversible height is non-decreasing -/
 theorem C30_monotone_run (rs : Nat) (hs : List Nat) (st : Irr)
-    (hinv : st.lih ≤ st.dposStart) (hh : ∀ h ∈ hs, st.lih ≤ h) (hsorted : hs.Pairwise (· ≤ ·)) :
+    (hinv : st.lih ≤ st.dposStart) (hh : ∀ h ∈ hs, st.lih ≤ h) (hsorted : hs.Pairwise (· < ·)) :
     st.lih ≤ (hs.foldl (tryUpdate rs) st).lih := by
   induction hs generalizing st with
   | nil => exact Nat.le_refl _
   | cons h r ih =>
     simp only [List.foldl_cons]
     have hstep := C30_monotone rs st h hinv (hh h (List.mem_cons_self ..))
-    have hle : ∀ x ∈ r, (tryUpdate rs st h).lih ≤ x := fun x hx =>
-      Nat.le_trans hstep.2.2 ((List.pairwise_cons.mp hsorted).1 x hx)
+    have hle : ∀ x ∈ r, (tryUpdate rs st h).lih ≤ x := fun x hx => by
+      have := (List.pairwise_cons.mp hsorted).1 x hx
+      omega
     exact Nat.le_trans hstep.1 (ih _ hstep.2.1 hle (List.pairwise_cons.mp hsorted).2)
 
 example : (tryUpdate 10 { lih := 0, dposStart := 0, dposWork := 0, dpos := true } 20).lih = 14 := by decide
 example : (tryUpdate 10 { lih := 14, dposStart := 14, dposWork := 0, dpos := true } 21).lih = 15 := by decide
-example : (tryUpdate 10 { lih := 15, dposStart := 15, dposWork := 30, dpos := true } 31).dposStart = 31 := by decide
+example : (tryUpdate 10 { lih := 15, dposStart := 15, dposWork := 30, dpos := true } 31).lih = 32 := by decide
+example : (tryUpdate 10 { lih := 28, dposStart := 28, dposWork := 30, dpos := true } 31).dposStart = 31 := by decide
 
 /-! ### ties to the source -/
 
